@@ -246,6 +246,50 @@ pub fn run(out: &mut Out, seed: u64, thorough: bool, scn: Option<&str>) {
         let nops = if thorough { rng.range(20, 200) } else { rng.range(20, 80) };
         history(out, &mut rng, &pool, nops, "random", None);
     }
+    // directed receiver histories: label A accepted, then a start/complete packet carrying label B that is
+    // rejected for one of several reasons, then a re-use packet: it must not be attributed to A
+    for reason in 0..6 {
+        for first_b in [false, true] {
+            for first_ru in [false, true] {
+                let mgr = TableMgr { known: vec![(0x0042, false, 3)] };
+                let mut rx = mk_rx(out, "labels", "rejected_then_reuse", 2, 32, 2, mgr, false);
+                let a = [1u8, 2, 3, 4, 5, 6];
+                let b = [9u8, 9, 9];
+                feed(out, &mut rx, &complete(&[1, 2, 3], &a, false, 0x0800).ser(), vec![]);
+                let mut taken = vec![];
+                let mk = |pdu: &[u8], ptype: u16, chain: Vec<u8>| -> Vec<u8> {
+                    let mut p = if first_b { train(pdu, &b, false, ptype, 6, &[pdu.len() / 2])[0].clone() } else { complete(pdu, &b, false, ptype) };
+                    p.chain = chain;
+                    p.ser()
+                };
+                let bytes = match reason {
+                    0 => mk(&[7; 8], 0x0099, vec![0x08, 0x00]),          // unknown mandatory extension
+                    1 => mk(&[7; 8], 0x0211, vec![0xAA, 0xBB, 0x00, 0x77, 0x08, 0x00]), // unknown mandatory later in the chain
+                    2 => mk(&[7; 80], 0x0800, vec![]),                    // larger than the storage
+                    3 => {
+                        // no storage at all
+                        while let Some(x) = rx.ev_take(out) {
+                            taken.push(x);
+                        }
+                        mk(&[7; 8], 0x0800, vec![])
+                    }
+                    4 => {
+                        let mut v = mk(&[7; 8], 0x0800, vec![]);
+                        v.truncate(v.len() - 2); // announced length exceeds the buffer
+                        v
+                    }
+                    _ => mk(&[7; 8], 0x0042, vec![1, 2]),                 // known extension, chain cut short
+                };
+                feed(out, &mut rx, &bytes, vec![]);
+                for x in taken {
+                    rx.ev_provision_buf(out, x);
+                }
+                let ru = if first_ru { train(&[4; 10], &b, true, 0x0800, 7, &[5])[0].ser() } else { complete(&[4; 10], &b, true, 0x0800).ser() };
+                feed(out, &mut rx, &ru, vec![]);
+                rx.ev_drain(out);
+            }
+        }
+    }
     // receiver-only histories: start/complete packets accepted or rejected, any label type,
     // fragments, padding, garbage, resets
     let nr = if thorough { 500 } else { 80 };
